@@ -209,7 +209,8 @@ PROPS = {
         "title": "the empty estimator is an exact identity of merge; lengths add exactly",
         "mc": [MC_HM, MC_MM, MC_W, MC_C, MC_MERGE],
         "replay": [gen_pair("Covariance", "tree", "E10:E10,E5:E10,E0:E0", maxlen=("3", "4")), gen_pair("Weighted", "tree", "E10:W1,E0:W0", maxlen=("3", "4")), gen_h("hist", 2, depth=("3", "4")), gen_h("hist", 3), gen_mm("hist", depth=("3", "4")), gen_pair("Weighted", "hist", "E0:W0,E5:W2,E10:W1", depth=("3", "4")), gen_pair("Covariance", "hist", "E0:E0,E3:E5,E10:E10,E5:E10", depth=("3", "4")), gen_hist(ALLM, "E0,E3,E5,E10"), gen_tree(ALLM, "E0")],
-        "trace": [TR_LEN],
+        "trace": [tr_h(3), TR_LEN],
+        "direct": [long_job("Mean,Variance,Skewness,Kurtosis,Moments4,M6", "E0", max_n="1000")],
         "rule": "every add/merge/clone/fresh/checkpoint history to the depth bound over two slots; at every merge the "
                 "destination's and source's full accessor vectors are compared bit for bit before/after",
         "bounds": {"quick": "depth <= 4", "thorough": "depth <= 5"},
@@ -232,9 +233,10 @@ PROPS = {
         "technique": 'TLC range invariants + replay under extreme exact embeddings',
         "title": "variances are never negative and means stay within the data range",
         "mc": [MC_HM, MC_W, MC_C, MC_SEQ, MC_MERGE],
-        "replay": [gen_h("hist", 2, depth=("3", "4")), gen_h("hist", 3), gen_pair("Weighted", "tree", "E0:W0,E6:W1,E7:W2,E8:W0,E9:W1", maxlen=("3", "4")), gen_pair("Covariance", "tree", "E6:E7,E8:E9,E9:E6", maxlen=("3", "4")), gen_seq(ALLM, E09), gen_tree(ALLM, "E0,E4,E6,E7,E8,E9"), gen_hist(ALLM, "E6,E7,E8,E9")],
+        "replay": [gen_h("hist", 2, depth=("3", "4")), gen_h("hist", 3), gen_pair("Weighted", "tree", "E0:W0,E6:W1,E7:W2,E8:W0,E9:W1,EM1:W0", maxlen=("3", "4")), gen_pair("Weighted", "seq", "EM1:W0,EM1:W2", maxlen=("4", "5")), gen_pair("Covariance", "tree", "E6:E7,E8:E9,E9:E6,EM1:EM1", maxlen=("3", "4")), gen_seq(ALLM, E09 + ",EM1"), gen_tree(ALLM, "E0,E4,E6,E7,E8,E9,EM1"), gen_hist(ALLM, "E6,E7,E8,E9,EM1")],
         "direct": [long_job("Mean,Variance,Skewness,Kurtosis,Moments4,M6,M10", "E0,E4,E6,E7,E8,E9,E10")],
         "apalache": [{"module": "Ind_Variance", "skip": (True, False)}],
+        "trace": [tr_h(3)],
         "rule": "all behaviours of C01/C02 replayed under embeddings without any conditioning bound (one-ulp spreads at 2^52, "
                 "denormals, 1e149, offsets 1e15 spreads); sign and range conditions on every observation",
         "bounds": {"quick": "L <= 5; tree L <= 4", "thorough": "L <= 7; tree L <= 5"},
@@ -376,7 +378,7 @@ PROPS = {
         "title": "histogram merge, +=, *=, reset and views are exact bin-wise operations",
         "mc": [MC_HM],
         "replay": H_HIST,
-        "trace": [tr_h(2), tr_h(10)],
+        "trace": [tr_h(2), tr_h(3), tr_h(10)],
         "rule": "every history of build/add/merge/+=/*=/reset/clone/checkpoint over two slots and 4-6 edge vectors (equal, numerically "
                 "equal with different zero signs, different, infinite, with empty bins) to the depth bound: counts exact, panics "
                 "exactly on different edges without mutation, merge == += == reversed merge, iteration order, all views against "
@@ -410,7 +412,8 @@ PROPS = {
                     "overrides": {"MaxLen": ("4", "5"), "Slots": ("{1, 2, 3, 4, 5, 6}", "{1, 2, 3, 4, 5, 6, 7, 8}")},
                     "family": "moments", "types": ALLM, "embeddings": "E0,E3,E5"}],
         "trace": [{"module": "Trace_Rayon", "cfg": "Trace_Rayon.cfg", "family": "rayon", "args": {"reps": ("2", "8")}, "timeout": 3600}],
-        "direct": [{"cmd": "direct", "family": "rayon", "args": {"max_n": ("10000", "1000000"), "reps": ("2", "4")}}],
+        "direct": [{"cmd": "direct", "family": "rayon", "args": {"max_n": ("10000", "1000000"), "reps": ("2", "4")}},
+                   long_job("Variance,Skewness,Kurtosis,Moments4", "E0,E3", max_n="1000")],
         "rule": "(a) Rayon.tla model-checked: every split tree and join order of N items returns an object holding 0..N-1 in order; "
                 "(b) every fold/reduce-shaped history (every partition into <= 3-4 leaves, each merging its accumulator into an empty "
                 "identity, joins in any order) replayed on ten real types; (c) the repository's impl_from_par_iterator! macro "
